@@ -637,7 +637,8 @@ func genCtxLookup(c *Ctx, n int, gpos bool) *gtab.LookupTable {
 // case runs longer than 2 s it exits, and the parent reports the outcome "runaway" for that case
 // and starts a new child.
 
-var dslWorkerOps = []string{"dsl.parse", "dsl.total", "dsl.roundtrip", "dsl.modelrt", "dsl.rtseed", "dsl.goroutines", "dsl.flags"}
+var dslWorkerOps = []string{"dsl.parse", "dsl.total", "dsl.roundtrip", "dsl.modelrt", "dsl.rtseed", "dsl.goroutines", "dsl.flags",
+	"dsl.rtrepeat", "dsl.parserepeat"}
 
 var dslImpl = map[string]opFn{}
 
